@@ -16,7 +16,7 @@ from evidence import Check
 
 def package():
     bufpkg, types, longs = shapes.buffer_package("Trn")
-    protos = [p for p in bufpkg.protocols if p.name.startswith("B")]
+    protos = [p for p in bufpkg.protocols if p.name.startswith("B") or p.name in ("Llf64", "Llvf32", "Llrt3", "Llna", "Llstr")]
     patpkg, pats = shapes.pattern_package(3, "Trn")
     protos += patpkg.protocols
     return Package("Trn", defs=bufpkg.defs, protocols=protos, dirname="trn")
@@ -137,6 +137,8 @@ def main(tier):
             v = next((x for x in vs if 2 <= len(refcodec.encode(t, x)) <= 64), vs[0])
             vals, parts = ["xy", v, [v, vs[0], v], 5], {2: [1, 2]}
         else:
+            if Pn.startswith("L"):
+                continue
             pat = Pn[1:].upper()
             ex = shapes.pattern_executions(pat)
             vals, parts = ex[-1]      # all streams with 3 items in blocks [1, 2]
@@ -150,6 +152,26 @@ def main(tier):
         jobs.append((Pn, steps, vals, parts, "b", cuts, "every-prefix"))
         # NDJSON: every cut after the header line (the header alone is ~1 kB of schema text: every 7th position there)
         jobs.append((Pn, steps, vals, parts, "n", None, "every-prefix"))
+    # large contiguous payloads (vectors / arrays of > 128 KiB that readers may fetch in one direct read): coarse cut grid,
+    # every position around each 64 KiB multiple and the last 48 positions
+    for Pn, steps in pr.steps.items():
+        if not Pn.startswith("L"):
+            continue
+        t = steps[0][1]
+        vs = values.values(t, 1, json_safe=True)
+        b = vs[min(2, len(vs) - 1)]
+        per = max(1, len(refcodec.encode(t, b)))
+        nbig = min(40000, (3 * rtengine.BUF) // per + 11)
+        vals, parts = [b, [b] * 40, [b] * nbig, 9], {1: [40]}
+        data = refcodec.encode_protocol(steps, vals, pr.schemas[Pn], parts)
+        n = len(data)
+        cuts = set(range(0, n, 4099 if quick else 509)) | set(range(max(0, n - 48), n))
+        for m in range(1, n // rtengine.BUF + 1):
+            cuts |= set(range(m * rtengine.BUF - 6, m * rtengine.BUF + 7))
+        cuts = sorted(c for c in cuts if 0 <= c < n)
+        jobs.append((Pn, steps, vals, parts, "b", cuts, "large-payload"))
+        for c in cuts:
+            chk.nontriv((Pn, "lp", c))
     # boundary family
     bex = rtengine.buffer_executions(pr, quick=quick)
     for Pn, execs in bex.items():
